@@ -1,6 +1,7 @@
 import Proofs.Producer
 import Proofs.CrashBatch
 import Proofs.CrashSigner
+import Proofs.CrashData
 
 /-!
 # C01 — the sequencer node only ever commits a valid, hash-linked, signed chain
@@ -193,6 +194,26 @@ theorem C01_blocks_are_their_batches (c : Cfg) (hpos : 1 ≤ c.initialHeight) (r
     obtain ⟨g1, g2⟩ := hn0 b hb
     exact ⟨b, hb, g1, g2⟩
 
+/-- the **data chain** of a store up to `top`: every block from the initial height up to `top` carries metadata; the
+metadata repeats chain id, height and time of the block's header; and its `lastDataHash` is the hash of the data
+stored one height below (`types.Data.Verify`, the adjacency rule go-header applies to the data P2P store) — empty at
+the initial height.  `execValidate` skips this field, so it is not part of `ValidChain`'s validation clause. -/
+def DataChain (c : Cfg) (s : Store) (top : Nat) : Prop :=
+  ∀ h, c.initialHeight ≤ h → h ≤ top → ∃ b m, s.getBlock h = some b ∧ b.data.metadata = some m ∧
+    m.chainId = b.sh.hdr.chainId ∧ m.height = b.sh.hdr.height ∧ m.time = b.sh.hdr.time ∧
+    (h = c.initialHeight → m.lastDataHash = []) ∧
+    (h > c.initialHeight → ∃ p, s.getBlock (h - 1) = some p ∧ m.lastDataHash = p.data.hash)
+
+theorem dataChain_iff (c : Cfg) (s : Store) (top : Nat) : DataChain c s top ↔ DataLinkedUpTo c s top := Iff.rfl
+
+/-- **Every committed block's data names the hash of the previous block's data**, for every run — whether the block
+was committed in the step that built it or later through "using pending block" (the `lastDataHash` attached is the
+one read from the store in the committing step; helpers `Proofs/CrashData.lean`; with crashes:
+`Spec.C04.C04_data_links`). -/
+theorem C01_data_links (c : Cfg) (hpos : 1 ≤ c.initialHeight) (rs : List (SeqResp × ExecResp)) :
+    DataChain c (run c (freshNode c) rs).store (run c (freshNode c) rs).store.height :=
+  run_dataLinked (freshNode_inv c hpos) (freshNode_dataLinked c hpos) rs
+
 /-! ## Liveness: "nor does any such sequence leave it permanently unable to produce blocks" -/
 
 /-- a well-formed answer: a batch that is not timestamped before the last block, executed successfully -/
@@ -287,6 +308,12 @@ example : ((run wCfg (freshNode wCfg) (pRun ++ [wProbe])).store.getBlock 3).map 
   constructor
   · decide +kernel
   · rfl
+
+/-- `C01_data_links` at work on the pending path: block 3 of `pRun ++ [wProbe]` (built at position 2, execution failed, committed by the
+probe) names the hash of block 2's data -/
+example : ((run wCfg (freshNode wCfg) (pRun ++ [wProbe])).store.getBlock 3).bind (fun b => b.data.metadata.map (·.lastDataHash))
+    = ((run wCfg (freshNode wCfg) (pRun ++ [wProbe])).store.getBlock 2).map (fun p => p.data.hash) ∧
+    ((run wCfg (freshNode wCfg) (pRun ++ [wProbe])).store.getBlock 2).isSome = true := by decide +kernel
 
 /-- non-vacuity: the hypotheses of the theorems above are met by a concrete reachable node that has
 committed two blocks -/
